@@ -12,19 +12,50 @@ pub static SIGNATURES: &[(&str, FindingPred)] = &[
   ("R21", r21_exact_lon0),
 ];
 
-/// R21 — exact mode, edge crossing lon = 0 inside a polar cap: arc_special_point_in_pc builds the sub-arc of the
-/// first quarter with the normal of the wrong meridian plane; the "special point" may lie on the great circle beyond
-/// the end of the edge and its cell is added to the coverage (a cell too far from the polygon).
-fn r21_exact_lon0(sig: &str, c: &Case) -> bool {
-  if c.mon() != "poly" || sig != "reported-cell-farther-than-R+2-cell-radii" || !c.gb("exact") { return false; }
-  let (vl, vb) = (c.gfl("vl"), c.gfl("vb"));
-  let crosses0 = vl.iter().any(|&l| l < 1.0) && vl.iter().any(|&l| l > 5.0);
-  let in_cap = vb.iter().any(|&b| b.abs() > TRANS_LAT);
-  crosses0 && in_cap
+/// The table SMALLER_EDGE2OPEDGE_DIST as it was when R5 was recorded (values observed by bisection on the public
+/// best_starting_depth of the pinned tree). The R5 signature is expressed against THESE values, so that a change of the
+/// table (or of the search) is not hidden behind the known finding.
+pub const R5_TABLE: [f64; 30] = [
+  0.8410686705685088, 0.37723631722170053, 0.18256386461918295, 0.09000432499034523, 0.04470553761855741, 0.02228115704023076,
+  0.011122977211214961, 0.005557125022105058, 0.0027774761500209185, 0.0013884670480328143, 6.941658374603201E-4, 3.4706600585087755E-4,
+  1.7352877579970442E-4, 8.676333125510362E-5, 4.338140148342286E-5, 2.1690634707822447E-5, 1.084530084565172E-5, 5.422646295795749E-6,
+  2.711322116099695E-6, 1.3556608000873442E-6, 6.778303355805395E-7, 3.389151516386149E-7, 1.69457571754776E-7, 8.472878485272006E-8,
+  4.236439215502565E-8, 2.1182195982014308E-8, 1.0591097960375205E-8, 5.295548939447981E-9, 2.647774429917369E-9, 1.3238871881399636E-9];
+
+/// (start depth, r / table[start depth]) according to the recorded table; None if r >= table[0]
+fn r5_ratio(r: f64) -> Option<(usize, f64)> {
+  if !(r < R5_TABLE[0]) { return None; }
+  let d = (0..30).rev().find(|&k| r < R5_TABLE[k]).unwrap_or(0);
+  Some((d, r / R5_TABLE[d]))
+}
+fn r5_zone(r: f64, lon: f64, lat: f64) -> bool {
+  let q = std::f64::consts::FRAC_PI_2;
+  let dl = { let m = lon.rem_euclid(q); m.min(q - m) };
+  match r5_ratio(r) { Some((_, ratio)) => lat.abs() > TRANS_LAT && dl <= 0.15 && ratio > 0.95 && ratio < 1.0, None => false }
+}
+
+/// R5 — best_starting_depth table too large at the thin Collignon cells next to polar-cap seams.
+/// C16: sig = containment claim, |lat| > asin(2/3), centre within 0.15 rad (in longitude) of a meridian k.pi/2,
+/// r / table(start depth) in (0.95, 1) for the table as recorded, and the function returned that very start depth.
+fn r5_bsd(sig: &str, c: &Case) -> bool {
+  if sig != "cone-of-radius-r-leaves-the-centre-cell-and-its-neighbours-at-best_starting_depth" { return false; }
+  if c.get("r").is_none() || c.get("start_depth").is_none() { return false; }
+  let r = c.gf("r");
+  match r5_ratio(r) { Some((d, _)) => d as u64 == c.gu("start_depth") && r5_zone(r, c.gf("lon"), c.gf("lat")), None => false }
+}
+
+/// R5 seen through the coverage queries (C05, C13 circular case): a miss whose missed cell lies outside the 3x3 block
+/// of the start depth, for a cone in the R5 zone (same predicate on the recorded table).
+fn r5_cone_miss(sig: &str, c: &Case) -> bool {
+  let r = if sig == "cone-coverage-misses-a-cell-containing-a-point-of-the-cone" { c.get("r").map(|_| c.gf("r")) }
+    else if sig == "circular-ellipse-misses-a-cell-touched-by-the-cone" { c.get("a").map(|_| c.gf("a")) } else { None };
+  let r = match r { Some(r) => r, None => return false };
+  if c.get("in_start_block").is_none() { return false; }
+  !c.gb("in_start_block") && r5_zone(r, c.gf("lon"), c.gf("lat"))
 }
 
 /// R17 — polygon predicates built on un-normalised cross products: ill-conditioned (eps / R^2) for polygons whose
-/// bounding radius is below 1e-6 rad. Any C12 polygon violation (mon=poly) with R < 1e-6 rad.
+/// bounding radius is below 1e-6 rad. Any of the listed C12 polygon violations (mon=poly) with R < 1e-6 rad.
 fn r17_tiny_polygon(sig: &str, c: &Case) -> bool {
   if c.mon() != "poly" || c.get("R").is_none() { return false; }
   let known_sigs = ["Polygon::contains-differs-from-the-geometric-definition", "cell-flagged-full-has-a-vertex-or-centre-outside-the-polygon",
@@ -33,22 +64,18 @@ fn r17_tiny_polygon(sig: &str, c: &Case) -> bool {
   c.gf("R") < 1e-6
 }
 
-/// R5 seen through the coverage queries (C05, C13 circular case): a miss whose missed cell lies outside the 3x3 block
-/// of the start depth, for a cone in the R5 zone (|lat| > asin(2/3), within 0.15 rad in longitude of a meridian k.pi/2,
-/// r / threshold(start depth) in (0.95, 1)).
-fn r5_cone_miss(sig: &str, c: &Case) -> bool {
-  if sig != "cone-coverage-misses-a-cell-containing-a-point-of-the-cone" && sig != "circular-ellipse-misses-a-cell-touched-by-the-cone" { return false; }
-  if c.get("ratio").is_none() || c.get("dlon_seam").is_none() || c.get("in_start_block").is_none() { return false; }
-  let (ratio, dl, lat) = (c.gf("ratio"), c.gf("dlon_seam"), c.gf("lat"));
-  !c.gb("in_start_block") && lat.abs() > TRANS_LAT && dl <= 0.15 && ratio > 0.95 && ratio < 1.0
-}
-
-/// R5 — best_starting_depth table too large at the thin Collignon cells next to polar-cap seams:
-/// C16: sig = containment claim, |lat| > asin(2/3), centre within 0.15 rad (in longitude) of a meridian k.pi/2,
-/// r / threshold(start depth) in (0.95, 1).
-fn r5_bsd(sig: &str, c: &Case) -> bool {
-  if sig != "cone-of-radius-r-leaves-the-centre-cell-and-its-neighbours-at-best_starting_depth" { return false; }
-  if c.get("ratio").is_none() || c.get("dlon_seam").is_none() { return false; }
-  let (ratio, dl, lat) = (c.gf("ratio"), c.gf("dlon_seam"), c.gf("lat"));
-  lat.abs() > TRANS_LAT && dl <= 0.15 && ratio > 0.95 && ratio < 1.0
+/// R21 — exact mode, edge crossing lon = 0 inside a polar cap: arc_special_point_in_pc builds the sub-arc of the
+/// first quarter with the normal of the wrong meridian plane; the "special point" may lie on the great circle beyond
+/// the end of the edge and its cell is added to the coverage (a cell too far from the polygon). In debug builds the
+/// debug assertions of that very branch (special_points_finder.rs, "Cross lon = 0") fire on the same arcs.
+fn r21_exact_lon0(sig: &str, c: &Case) -> bool {
+  if c.mon() != "poly" || !c.gb("exact") { return false; }
+  let far = sig == "reported-cell-farther-than-R+2-cell-radii";
+  let dbg = sig == "polygon_coverage-panics" && c.get("at").unwrap_or("").contains("special_points_finder.rs") && { let m = c.get("msg").unwrap_or(""); m.contains("p2.lon()_<_intersect2.lon()") || m.contains("p1.lon()_<_intersect1.lon()") };
+  if !far && !dbg { return false; }
+  let (vl, vb) = (c.gfl("vl"), c.gfl("vb"));
+  let n = vl.len();
+  let crosses0 = n >= 2 && (0..n).any(|i| (vl[i] - vl[(i + 1) % n]).abs() > std::f64::consts::PI); // an edge crosses lon = 0
+  let in_cap = vb.iter().any(|&b| b.abs() > TRANS_LAT);
+  crosses0 && in_cap
 }
